@@ -60,13 +60,14 @@ def _entry(kind, p):
 
 
 def h_preview_equals_execute(k0: int, k1: int, k2: int, n: int, pk: int, pi: int, ps: int,
-                             pb: bool) -> bool:
+                             pb: bool, k3: int) -> bool:
     """
-    pre: 0 <= k0 <= 7 and 0 <= k1 <= 7 and 0 <= k2 <= 7 and 1 <= n <= 3
+    pre: 0 <= k0 <= 7 and 0 <= k1 <= 7 and 0 <= k2 <= 7 and 1 <= n <= hx.bound(3, 4)
+    pre: 0 <= k3 <= (7 if hx.THOROUGH else 0)
     pre: 0 <= pk <= 2 and 0 <= ps <= 5 and 0 <= pi <= 3
     pre: (pk == 0 or pi == 0) and (pk == 1 or ps == 0) and (pk == 2 or not pb)
     pre: hx.in_part(k0, k1)
-    pre: not hx.excluded(k0, k1, k2, n, pk, pi, ps, pb)
+    pre: not hx.excluded(k0, k1, k2, n, pk, pi, ps, pb, k3)
     post: _
     """
     if pk == 0:
@@ -75,7 +76,7 @@ def h_preview_equals_execute(k0: int, k1: int, k2: int, n: int, pk: int, pi: int
         p = hx.pick(STRS, ps)
     else:
         p = True if pb else False
-    sql = [_entry(k, p) for k in (k0, k1, k2)[:n]]
+    sql = [_entry(k, p) for k in (k0, k1, k2, k3)[:n]]
     with SQLExecutor('default') as ex:
         preview = ex.run_sql(sql, capture=True, execute=False)
     rec = _Cursor()
@@ -99,7 +100,7 @@ def h_preview_equals_execute(k0: int, k1: int, k2: int, n: int, pk: int, pi: int
     if ok:
         for a, b in zip(shown, rendered):
             ok = ok and a == b
-    return hx.verdict(ok, any(k in (1, 4, 5, 6, 7) for k in (k0, k1, k2)[:n]))
+    return hx.verdict(ok, any(k in (1, 4, 5, 6, 7) for k in (k0, k1, k2, k3)[:n]))
 
 
 def h_preview_values(ps: int, pk: int, pi: int) -> bool:
